@@ -406,4 +406,7 @@ def finalize(agg):
     tot = c.get('kind:run', 0)
     if tot and c.get('premise_false_not_converged', 0) > 0.5 * tot:
         out.append(f'{c.get("premise_false_not_converged")} of {tot} ParaDiag runs did not reach the residual tolerance (premise of the run clause)')
+    for k, why in (('paradiag_iterations_watched', 'no ParaDiag iteration was compared with the all-at-once model'), ('reconfigured_sweeps', 'no sweep after set_G_inv was judged')):
+        if c.get(k, 0) == 0:
+            out.append(why)
     return out
